@@ -25,11 +25,7 @@ def pi32 : α := KOps.r32 (KOps.pi : α)
 
 /-! ### glam `Vec3` (scalar struct, glam/src/f32/vec3.rs) -/
 
-/-- mirrors: glam::Vec3 -/
-structure Vec3 (α : Type) where
-  x : α
-  y : α
-  z : α
+-- `structure Vec3` (mirrors: glam::Vec3) is declared in Model/Geom.lean
 
 namespace Vec3
 
@@ -68,12 +64,7 @@ end Vec3
 
 /-! ### glam `Quat` (SSE2, glam/src/f32/sse2/quat.rs + sse2.rs helpers) -/
 
-/-- mirrors: glam::Quat (lanes x y z w) -/
-structure Quat (α : Type) where
-  x : α
-  y : α
-  z : α
-  w : α
+-- `structure Quat` (mirrors: glam::Quat, lanes x y z w) is declared in Model/Geom.lean
 
 namespace Quat
 
@@ -322,12 +313,7 @@ structure SpatialData (α : Type) where
   attenuation : Option (Easing α)
   strength : Parameter α α
 
-/-- mirrors: info.rs::ListenerInfo -/
-structure ListenerInfo (α : Type) where
-  position : Vec3 α
-  orientation : Quat α
-  previousPosition : Vec3 α
-  previousOrientation : Quat α
+-- `structure ListenerInfo` (mirrors: info.rs::ListenerInfo) is declared in Model/Geom.lean
 
 /-- mirrors: info.rs::ListenerInfo::interpolated_position -/
 def ListenerInfo.interpolatedPosition (li : ListenerInfo α) (amount : α) : Vec3 α :=
